@@ -1336,6 +1336,10 @@ func (r *pilosaRoaringIterator) Next() (key uint64, cType byte, n int, length in
 	case containerRun:
 		r.currentLen = int(runCount)
 		size = r.currentLen * 4
+	default:
+		r.Done(fmt.Errorf("container %d/%d, key %d, has unsupported container type %d",
+			r.currentIdx, r.keys, r.currentKey, r.currentType))
+		return r.Current()
 	}
 	if int64(r.currentDataOffset)+int64(size) > int64(len(r.data)) {
 		r.Done(fmt.Errorf("container %d/%d, key %d, had offset %d+%d size, maximum %d",
